@@ -22,6 +22,9 @@ type c12Plan struct {
 	Setup  []vfCmd   `json:"setup"`
 	Groups [][]vfCmd `json:"groups"` // commands of one group overlap; groups run one after the other
 	Sched  []int     `json:"sched"`
+	// Contend: an actor about to begin its snapshot may go ahead even while another one sits inside its own
+	// (it then queues on the snapshot lock, out of the scheduler's sight, and writes as soon as the lock is free)
+	Contend bool `json:"contend,omitempty"`
 }
 
 func c12Gen(t *rapid.T) c12Plan {
@@ -68,6 +71,7 @@ func c12Gen(t *rapid.T) c12Plan {
 		}
 		p.Groups = append(p.Groups, group)
 	}
+	p.Contend = rapid.Bool().Draw(t, "contend")
 	n := rapid.IntRange(0, 40).Draw(t, "nsched")
 	for i := 0; i < n; i++ {
 		p.Sched = append(p.Sched, rapid.IntRange(0, 5).Draw(t, "choice"))
@@ -265,7 +269,7 @@ func c12Run(t *testing.T, p c12Plan) (res vfResult) {
 						sort.Strings(names)
 						if start == 1 && len(names) > 0 && rerr == nil {
 							// the restarted proxy goes on working: a command that makes the state smaller
-							if err := nr.RemoveService(names[0]); err != nil {
+							if err := vfRemove(nr, names[0]); err != nil {
 								rerr = err
 							}
 							removed = names[0]
@@ -309,12 +313,13 @@ func c12Run(t *testing.T, p c12Plan) (res vfResult) {
 					}
 					res.label("restored-from-crash-image")
 				}
-				// An actor waiting to begin its snapshot may only go ahead while nobody holds the snapshot lock:
-				// otherwise it would block on a mutex, which the bubble cannot see as idle. (If the lock were not
+				// Without Contend an actor waiting to begin its snapshot only goes ahead while nobody holds the snapshot
+				// lock; with it, it may queue on the mutex (which the bubble cannot see as idle: c12Settle then waits a
+				// bounded number of yields instead, and the queued actor simply counts as pending). (If the lock were not
 				// taken by the code, TryLock always succeeds and the writers' steps interleave freely.)
 				var movable []string
 				for _, a := range parked {
-					if sc.parkedAt(a) == "snapshot.begin" {
+					if sc.parkedAt(a) == "snapshot.begin" && !p.Contend {
 						if !r.snapshotLock.TryLock() {
 							continue
 						}
